@@ -448,10 +448,16 @@ class Comm(metaclass=_CommMeta):
         def complete(p):
             cid = w.new_cid()
             return [cid] * len(p)
-        cid = self._coll('Create_cart', (tuple(dims),), None, complete)
+        cid = self._coll('Create_cart', (tuple(dims), bool(reorder)), None, complete)
         if self._rank >= n:
             return COMM_NULL
-        return Comm(w, cid, self._members[:n], self._wrank, dims)
+        members = self._members[:n]
+        if reorder and n > 1:
+            # an MPI library may renumber the processes of a cartesian topology when reorder is true: the
+            # simulated one always does (backwards), so that code which asks for it must use the new ranks
+            members = tuple(reversed(members))
+            w.count_fault('cart-reorder')
+        return Comm(w, cid, members, self._wrank, dims)
 
     def _need_cart(self):
         if self._dims is None:
